@@ -153,3 +153,12 @@ CHECKS["C06"] = {
     "note": "Assumed: words separated as pre_process_data intends. Known finding: CREATE SCHEMA strips back-ticks. Sequence / index / alter naming positions are decided by the C17 / C04 fragments.",
 }
 NOT_APPLICABLE.pop("C06", None)
+CHECKS["C09"] = {
+    "engine": "E3 lexmodel x E4 deriv (types fragment) + E5 T-RESET / T-DOM",
+    "category": "model_checking",
+    "technique": "static fixed point over (type-language automaton with bounded nesting x abstractly interpreted lexer incl. the bracket counter x LALR tables) with abstract evaluation of the type / column actions against a one-balanced-string expectation; reset analysis of the counter",
+    "text": "For every column type of the fragment (sizes, [] suffix, two-word, schema-qualified, angle-bracket types as word sequences to nesting depth 3 / 6 in every admissible order) placed between two plain columns and followed by any sequence of NOT NULL / DEFAULT / COMMENT: accepted, the type is one string with all its words in order and balanced brackets plus the size as given, the options land on that column, and the neighbouring columns and the column list are exactly as next to a plain type. Types whose first word both opens and closes a bracket are a recorded known finding.",
+    "design_ref": "DESIGN.md section 4 C09",
+    "note": _FRAG_NOTE + " Depth is bounded (3 quick / 6 thorough); beyond that the argument is the uniformity of the counter rows, which is not mechanised.",
+}
+NOT_APPLICABLE.pop("C09", None)
